@@ -75,3 +75,19 @@ Theorem child_output_total :
   forall exit_ok d, exists c, classify_child exit_ok d = c.
 Proof. intros. eexists. reflexivity. Qed.
 Print Assumptions child_output_total.
+
+(** never hangs, poll level: one poll of the controller future takes finitely many turns of the
+    select loop, whatever is queued and whatever [select!] picks (see C04 for the refutation of
+    the unguarded loop) *)
+From Cambrian Require Import Poll.
+Theorem controller_poll_never_spins :
+  forall (V M T : Type) (tcmp : T -> T -> comparison) (mean : list T -> T) (hit : T -> bool)
+         (max_pop min_reeval ss : nat) (budget : option N) (init_val : V) (os : N -> orc V M)
+         (ready : list (N * outcome T * bool)) (pick : nat -> bool) (sent : bool) (c : ctl V M T),
+    poll V M T tcmp mean hit max_pop min_reeval ss budget init_val os abort_branch_guarded
+         (S (S (length ready))) pick sent c ready <> PSpin V M T.
+Proof.
+  intros. apply poll_returns; [reflexivity|].
+  match goal with |- context [if ?b then _ else _] => destruct b end; Lia.lia.
+Qed.
+Print Assumptions controller_poll_never_spins.
